@@ -13,10 +13,12 @@ CVC5 = "/usr/bin/cvc5"
 
 class Prover:
     def __init__(self, timeout_ms=60000, cvc5_timeout_s=120, use_cvc5=True, int_first=False,
-                 int_timeout_ms=20000):
+                 int_timeout_ms=20000, arrays=None):
         self.timeout_ms = timeout_ms
+        self.arrays = arrays                # None = detect per query; False/True = declared by the harness
         self.int_first = int_first          # try the exact integer-arithmetic translation first
         self.int_timeout_ms = int_timeout_ms
+        self._int = None                    # _IntContext, created on first use
         self.cvc5_timeout_s = cvc5_timeout_s
         self.use_cvc5 = use_cvc5 and os.path.exists(CVC5)
         self.stats = dict(z3_unsat=0, z3_sat=0, z3_unknown=0, trivial=0, cvc5_unsat=0, cvc5_sat=0,
@@ -34,7 +36,9 @@ class Prover:
         self.stats["queries"] += 1
         if self.int_first:
             t0 = time.time()
-            v, m = prove_as_int(pc, c, self.int_timeout_ms)
+            if self._int is None:
+                self._int = _IntContext(self.int_timeout_ms)
+            v, m = self._int.prove(pc, c)
             self.stats["solver_s"] += time.time() - t0
             self.stats["int_" + v] = self.stats.get("int_" + v, 0) + 1
             if v == "unsat":
@@ -43,7 +47,8 @@ class Prover:
                 return "sat", m
             # unknown / unsupported operator: the bit-vector portfolio decides
         t0 = time.time()
-        s = z3.SolverFor("QF_BV")
+        arrays = self.arrays if self.arrays is not None else _has_arrays(list(pc) + [c])
+        s = z3.SolverFor("QF_ABV" if arrays else "QF_BV")
         s.set("timeout", self.timeout_ms)
         s.add(*pc)
         s.add(z3.Not(c))
@@ -56,7 +61,7 @@ class Prover:
             self.stats["z3_sat"] += 1
             return "sat", s.model()
         self.stats["z3_unknown"] += 1
-        if not self.use_cvc5:
+        if not self.use_cvc5 or arrays:
             return "unknown", None
         for extra in (["--solve-bv-as-int=sum"], []):
             t0 = time.time()
@@ -83,6 +88,22 @@ class Prover:
             else:
                 self.stats["cvc5_unknown"] += 1
         return "unknown", None
+
+
+def _has_arrays(exprs):
+    """does any sub-term have array sort?  (memoised DFS over the DAG)"""
+    seen = set()
+    stack = list(exprs)
+    while stack:
+        e = stack.pop()
+        i = e.get_id()
+        if i in seen:
+            continue
+        seen.add(i)
+        if z3.is_array(e):
+            return True
+        stack.extend(e.children())
+    return False
 
 
 def _decls(smt):
@@ -155,23 +176,33 @@ class _Unsupported(Exception):
     pass
 
 
-def _bv_to_int(formulas):
-    memo = {}
-    bvvars = {}
+class _IntContext:
+    """translation memo (holds the source terms, so z3 ids stay unique) + one incremental integer
+    solver per path condition (the obligations of one path share it)"""
 
-    def wrap(t, W):
+    def __init__(self, timeout_ms):
+        self.timeout_ms = timeout_ms
+        self.memo = {}          # z3 ast id -> (source term, integer/boolean translation)
+        self.bvvars = {}        # name -> width
+        self.key = None
+        self.solver = None
+
+    @staticmethod
+    def _wrap(t, W):
         half, full = 1 << (W - 1), 1 << W
         return z3.If(t >= half, t - full, z3.If(t < -half, t + full, t))
 
-    def tr(e):
+    def tr(self, e):
         k = e.get_id()
-        r = memo.get(k)
+        r = self.memo.get(k)
         if r is None:
-            r = tr1(e)
-            memo[k] = r
-        return r
+            r = (e, self._tr1(e))
+            self.memo[k] = r
+        return r[1]
 
-    def tr1(e):
+    def _tr1(self, e):
+        tr = self.tr
+        wrap = self._wrap
         d = e.decl().kind()
         ch = e.children()
         if z3.is_bv(e):
@@ -180,7 +211,7 @@ def _bv_to_int(formulas):
                 return z3.IntVal(e.as_signed_long())
             if d == z3.Z3_OP_UNINTERPRETED and not ch:
                 name = e.decl().name()
-                bvvars[name] = W
+                self.bvvars[name] = W
                 return z3.Int("int!" + name)
             if d == z3.Z3_OP_BADD:
                 r = tr(ch[0])
@@ -197,6 +228,9 @@ def _bv_to_int(formulas):
             if d == z3.Z3_OP_BMUL and len(ch) == 2 and (z3.is_bv_value(ch[0]) or z3.is_bv_value(ch[1])):
                 half, full = 1 << (W - 1), 1 << W
                 return (tr(ch[0]) * tr(ch[1]) + half) % full - half
+            if d == z3.Z3_OP_BSHL and z3.is_bv_value(ch[1]) and ch[1].as_long() < W:
+                half, full = 1 << (W - 1), 1 << W
+                return (tr(ch[0]) * (1 << ch[1].as_long()) + half) % full - half
             if d == z3.Z3_OP_ITE:
                 return z3.If(tr(ch[0]), tr(ch[1]), tr(ch[2]))
             raise _Unsupported(str(e.decl()))
@@ -232,35 +266,52 @@ def _bv_to_int(formulas):
             raise _Unsupported(str(e.decl()))
         raise _Unsupported(str(e.sort()))
 
-    out = [tr(f) for f in formulas]
-    for name, W in bvvars.items():
-        v = z3.Int("int!" + name)
-        out.append(z3.And(v >= -(1 << (W - 1)), v < (1 << (W - 1))))
-    return out, bvvars
+    def _bounds(self):
+        out = []
+        for name, W in self.bvvars.items():
+            v = z3.Int("int!" + name)
+            out.append(z3.And(v >= -(1 << (W - 1)), v < (1 << (W - 1))))
+        return out
 
-
-def prove_as_int(pc, c, timeout_ms=20000):
-    """'unsat' | 'sat' (+ z3 bit-vector model) | 'unknown' | 'unsupported' for  pc and not c"""
-    fs = list(pc) + [z3.Not(c)]
-    try:
-        ints, bvvars = _bv_to_int(fs)
-    except _Unsupported:
-        return "unsupported", None
-    s = z3.Solver()
-    s.set("timeout", timeout_ms)
-    s.add(*ints)
-    r = s.check()
-    if r == z3.unsat:
-        return "unsat", None
-    if r != z3.sat:
+    def prove(self, pc, c):
+        """'unsat' | 'sat' (+ z3 bit-vector model) | 'unknown' | 'unsupported' for  pc and not c"""
+        if len(self.memo) > 200000:
+            self.memo.clear()
+            self.key = None
+        try:
+            key = tuple(f.get_id() for f in pc)
+            if key != self.key or self.solver is None:
+                self.key = None
+                ints = [self.tr(f) for f in pc]
+                s = z3.Solver()
+                s.set("timeout", self.timeout_ms)
+                s.add(*ints)
+                self.solver = s
+                self.pc_terms = list(pc)      # keep the ids alive
+                self.key = key
+            nc = self.tr(z3.Not(c))
+        except _Unsupported:
+            return "unsupported", None
+        s = self.solver
+        s.push()
+        try:
+            s.add(nc)
+            s.add(*self._bounds())
+            r = s.check()
+            m = s.model() if r == z3.sat else None
+        finally:
+            s.pop()
+        if r == z3.unsat:
+            return "unsat", None
+        if r != z3.sat:
+            return "unknown", None
+        s2 = z3.SolverFor("QF_BV")
+        s2.set("timeout", self.timeout_ms)
+        s2.add(*pc)
+        s2.add(z3.Not(c))
+        for name, W in self.bvvars.items():
+            val = m.eval(z3.Int("int!" + name), model_completion=True).as_long()
+            s2.add(z3.BitVec(name, W) == z3.BitVecVal(val, W))
+        if s2.check() == z3.sat:
+            return "sat", s2.model()
         return "unknown", None
-    m = s.model()
-    s2 = z3.SolverFor("QF_BV")
-    s2.set("timeout", timeout_ms)
-    s2.add(*fs)
-    for name, W in bvvars.items():
-        val = m.eval(z3.Int("int!" + name), model_completion=True).as_long()
-        s2.add(z3.BitVec(name, W) == z3.BitVecVal(val, W))
-    if s2.check() == z3.sat:
-        return "sat", s2.model()
-    return "unknown", None
